@@ -23,6 +23,7 @@ type Case struct {
 	Unions map[reflect.Type][]reflect.Type   // interface type -> member types
 	Rand   map[string]func() any             // source type name -> generated rand function
 	Ignore map[string]bool                    // "Type.Field" marked gomacro-data:"ignore"
+	Enums  map[reflect.Type][]reflect.Value   // enum type -> its constants
 }
 
 var Registry = map[string]*Case{}
@@ -34,6 +35,10 @@ var timeType = reflect.TypeOf(time.Time{})
 // Fill sets v to a random value; union-typed components get a random member value.
 func Fill(v reflect.Value, rng *rand.Rand, c *Case, depth int) {
 	t := v.Type()
+	if ms := c.Enums[t]; len(ms) > 0 {
+		v.Set(ms[rng.Intn(len(ms))]) // enum-typed components hold members
+		return
+	}
 	if t == timeType || (t.Kind() == reflect.Struct && t.ConvertibleTo(timeType) && t.NumField() == 3 && t.Field(0).Name == "wall") {
 		tm := time.Unix(int64(rng.Intn(2000000000)), 0).UTC()
 		v.Set(reflect.ValueOf(tm).Convert(t))
